@@ -108,9 +108,9 @@ def Engine.evaluateBounded (e : Engine) (mode : Mode) (limit : Nat) (name : Stri
   let ending := match r.ending with
     | some .oof => none
     | x => x
-  -- the answer at which the projection raised is not part of the result
+  -- when the projection raises, the exception escapes and nothing is returned
   let answers := match raiseAt, r.ending with
-    | some _, some (.exn _) => r.answers.dropLast
+    | some _, some (.exn _) => []
     | _, _ => r.answers
   (e', { r with answers := answers, ending := ending })
 
